@@ -245,3 +245,8 @@ Proof.
   - apply Rmult_lt_0_compat; lra.
   - apply Rmult_lt_0_compat; [apply Rmult_lt_0_compat|]; lra.
 Qed.
+
+Lemma zeta_accept_def : forall sm1 x,
+  zeta_b sm1 = Rpower 2 sm1 /\ zeta_t sm1 x = Rpower (1 + 1 / x) sm1 /\
+  zeta_accept sm1 x = zeta_t sm1 x * (zeta_b sm1 - 1) / (x * (zeta_t sm1 x - 1) * zeta_b sm1).
+Proof. intros. repeat split. Qed.
